@@ -316,6 +316,14 @@ def foreign_sessions(framer):
             out.append((spec, cfg, [[(w1, [w1]), (m9a, [m9a]), (m9b, [m9b]), (r9, [r9]), (r1, [r1])]]))
             if framer != "binary":
                 out.append((spec, cfg, [[(w1 + m9a + m9b, [w1, m9a, m9b]), (r9 + r1, [r9, r1])]]))
+    # a SINGLE context hosts every unit id, the non-significant 0xFF and the reserved 248..254 included: all three
+    # front-ends must serve them alike (write, then read back)
+    sp = {"single": True, "units": [0], "size": 16}
+    for uid in (255, 248, 254, 247):
+        w = L.frame(framer, 0x1131, uid, L.pdu_write_reg(3, 0x0C00 + uid))
+        rd = L.frame(framer, 0x1132, uid, L.pdu_read(3, 3, 1))
+        for ign in (False, True):
+            out.append((sp, {"broadcast_enable": False, "ignore_missing_slaves": ign}, [[(w, [w]), (rd, [rd])]]))
     return out
 
 
